@@ -339,6 +339,7 @@ func blockOnListChangeWorker(
 
 	// still need data, so loop until data comes or a cancel condition exists
 	for {
+		var discarded *unblockReason
 		if func() bool {
 			timeout := time.Until(end)
 			waitTimer := time.NewTimer(timeout)
@@ -346,7 +347,7 @@ func blockOnListChangeWorker(
 
 			verifPoint("before-capture", ctx.cs.id, 0)
 			unblockCh := ctx.cs.capture()
-			defer ctx.cs.releaseCapture()
+			defer func() { discarded = ctx.cs.releaseCapture() }()
 
 			verifPoint("before-wait", ctx.cs.id, 0)
 			select {
@@ -376,6 +377,14 @@ func blockOnListChangeWorker(
 		// list element probably exists and the operation will succeed
 		output = op()
 		if output.data != nil {
+			return
+		}
+
+		// an unblock request that arrived together with the wake-up must not get lost
+		if discarded != nil {
+			if discarded.isError {
+				output.data = respErrorString(discarded.reason)
+			}
 			return
 		}
 		// a different client obtained the list element before this client could, so try again
